@@ -237,11 +237,17 @@ def encode (t : Bpe) (srcLen : Nat) (text : List Nat) (map : Option (List Nat))
   | none => none
   | some (toks, offs) => if toks.isEmpty then some ([], []) else some (toks, offs ++ [srcLen])
 
-/-- `Encoded::text_for_token_range(i..i+1)` on the source bytes (`str::get` = `None` when the
-range is decreasing or out of bounds; char-boundary checks are by typing). -/
+/-- `str::get(a..b)`: `None` when the range is decreasing, out of bounds, or an end is not a char
+boundary of the text. -/
+def strGet (src : List Nat) (a b : Nat) : Option (List Nat) :=
+  if a ≤ b ∧ b ≤ src.length ∧ Utf8.isBoundary src a = true ∧ Utf8.isBoundary src b = true then
+    some (slice src a b)
+  else none
+
+/-- `Encoded::text_for_token_range(i..i+1)` on the source bytes. -/
 def textForToken (src : List Nat) (offs : List Nat) (i : Nat) : Option (List Nat) :=
   match offs[i]?, offs[i + 1]? with
-  | some a, some b => if a ≤ b ∧ b ≤ src.length then some (slice src a b) else none
+  | some a, some b => strGet src a b
   | _, _ => none
 
 /-- `text_for_token_range(i..i+1)` for every token `i`, given `token_offsets` (which carries one
@@ -249,7 +255,6 @@ trailing entry more than there are tokens). -/
 def tokenTexts (src : List Nat) : List Nat → List (Option (List Nat))
   | [] => []
   | [_] => []
-  | a :: b :: rest =>
-    (if a ≤ b ∧ b ≤ src.length then some (slice src a b) else none) :: tokenTexts src (b :: rest)
+  | a :: b :: rest => strGet src a b :: tokenTexts src (b :: rest)
 
 end RtenVerif.ByteBpe
